@@ -369,3 +369,27 @@ Proof.
   rewrite <- (app_nil_r_s (String c r)) at 1. rewrite Hs. simpl rm2_from. now rewrite app_nil_r_s.
 Qed.
 
+
+(* ------------------------------------------------------------------ f.readlines() *)
+
+Lemma readlines_line : forall l rest, all_chars (fun c => negb (Ascii.eqb c NLc)) l = true ->
+  readlines (l ++ NL ++ rest) = (l ++ NL) :: readlines rest.
+Proof.
+  induction l; intros rest H.
+  - simpl. reflexivity.
+  - simpl in H. apply andb_true_iff in H. destruct H as [H1 H2]. apply negb_true_iff in H1.
+    change (String a l ++ NL ++ rest) with (String a (l ++ NL ++ rest)).
+    change (readlines (String a (l ++ NL ++ rest)))
+      with (if Ascii.eqb a NLc then NL :: readlines (l ++ NL ++ rest)
+            else match l ++ NL ++ rest with "" => [String a ""] | _ => cons_head a (readlines (l ++ NL ++ rest)) end).
+    rewrite H1, (IHl rest H2).
+    destruct (l ++ NL ++ rest) eqn:E; [destruct l; discriminate | reflexivity].
+Qed.
+
+(* the report handed to the kernel line by line is read back as those lines, each with its line break *)
+Lemma readlines_join : forall ls, Forall (fun l => all_chars (fun c => negb (Ascii.eqb c NLc)) l = true) ls ->
+  readlines (join_nl ls) = map (fun l => l ++ NL) ls.
+Proof.
+  induction ls; intros H; [reflexivity |]. inversion H; subst.
+  change (join_nl (a :: ls)) with (a ++ NL ++ join_nl ls). rewrite readlines_line by assumption. simpl. f_equal. auto.
+Qed.
